@@ -239,6 +239,10 @@ def option_argv(o):
         a += ['--reject-regex', o['reject_regex']]
     if o.get('tries'):
         a += ['--tries', str(o['tries'])]
+    if o.get('database_uri'):
+        a += ['--database-uri', 'URI']
+    if o.get('warc_dedup'):
+        a += ['--warc-file', 'rec', '--warc-dedup', 'CDX']
     if o.get('max_redirect'):
         a += ['--max-redirect', str(o['max_redirect'])]
     if o.get('timestamping'):
